@@ -238,7 +238,9 @@ static void put_snapshot(void)
 		s[i].out_sentlen = u->outpacket.sentlen;
 		s[i].out_seq = u->outpacket.seqno; s[i].out_frag = u->outpacket.fragment;
 		s[i].outfragresent = u->outfragresent; s[i].fragsize = u->fragsize;
+#ifdef OUTPACKETQ_LEN
 		s[i].outpacketq_filled = u->outpacketq_filled;
+#endif
 		if (!u->active) {
 			/* fields of never-initialised slots are calloc zeros; encoder may be NULL */
 			s[i].encbits = 0;
